@@ -47,6 +47,14 @@ var helperNames = map[string]bool{"expectZeroSize": true, "discardOnKafkaError":
 	"newMessageSetReader": true, "waitResponse": true, "doRequest": true, "do": true, "readOperation": true, "writeOperation": true,
 	"readPartitionsResponse": true, "discardN": true, "read": true}
 
+// recvIdent is the name of the receiver variable ("c" if it has none).
+func recvIdent(fd *ast.FuncDecl) string {
+	if fd.Recv != nil && len(fd.Recv.List) == 1 && len(fd.Recv.List[0].Names) == 1 {
+		return fd.Recv.List[0].Names[0].Name
+	}
+	return "c"
+}
+
 func recvName(fd *ast.FuncDecl) string {
 	if fd.Recv == nil || len(fd.Recv.List) != 1 {
 		return ""
@@ -730,6 +738,45 @@ func readerStackFacts(file string) ([3]bool, error) {
 	return facts, nil
 }
 
+// inlineClosers: a method of Conn (other than Close) whose body closes the network connection unconditionally — a
+// top-level statement `recv.conn.Close()` with no return / branch before it — is a "closer"; every call `x.M()` of a
+// closer in the analysed functions is rewritten to `x.conn.Close()`, so that the close rules below see through a helper
+// such as `func (c *Conn) abortRead() { c.conn.Close(); c.rbuf.Discard(…) }`.
+func inlineClosers(fns map[string]*ast.FuncDecl) {
+	closers := map[string]bool{}
+	for name, fd := range fns {
+		if name == "Close" || recvName(fd) != "Conn" || fd.Type.Params.NumFields() != 0 {
+			continue
+		}
+		want := recvIdent(fd) + ".conn.Close"
+		for _, st := range fd.Body.List {
+			es, ok := st.(*ast.ExprStmt)
+			if !ok {
+				break // anything but a plain call before the close: not a closer
+			}
+			if c, ok := es.X.(*ast.CallExpr); ok && len(c.Args) == 0 && exprString(c.Fun) == want {
+				closers[name] = true
+				break
+			}
+		}
+	}
+	if len(closers) == 0 {
+		return
+	}
+	for _, fd := range fns {
+		ast.Inspect(fd.Body, func(n ast.Node) bool {
+			c, ok := n.(*ast.CallExpr)
+			if !ok || len(c.Args) != 0 {
+				return true
+			}
+			if sel, ok := c.Fun.(*ast.SelectorExpr); ok && closers[sel.Sel.Name] {
+				c.Fun = &ast.SelectorExpr{X: &ast.SelectorExpr{X: sel.X, Sel: ast.NewIdent("conn")}, Sel: ast.NewIdent("Close")}
+			}
+			return true
+		})
+	}
+}
+
 // closesOnNonKafka: the function contains `if !errors.As(err, &X) [&& !errors.Is(err, io.ErrShortBuffer)] { ….Close() }`
 // and no other call of Close on a connection.
 func closesOnNonKafka(fd *ast.FuncDecl, shortBuffer bool) bool {
@@ -759,13 +806,25 @@ func closesOnNonKafka(fd *ast.FuncDecl, shortBuffer bool) bool {
 			} else if !shortBuffer {
 				ok = isNotCall(cond, "As")
 			}
-			if ok && len(s.Body.List) == 1 && s.Else == nil {
-				if es, is := s.Body.List[0].(*ast.ExprStmt); is {
+			if ok && s.Else == nil {
+				// the body: plain calls only, exactly one of them a Close (others: e.g. dropping the buffered bytes)
+				n, plain := 0, true
+				for _, st := range s.Body.List {
+					es, is := st.(*ast.ExprStmt)
+					if !is {
+						plain = false
+						break
+					}
 					if c, is := es.X.(*ast.CallExpr); is {
 						if sel, is := c.Fun.(*ast.SelectorExpr); is && sel.Sel.Name == "Close" {
-							good++
+							n++
 						}
+					} else {
+						plain = false
 					}
+				}
+				if plain && n == 1 {
+					good++
 				}
 			}
 		case *ast.CallExpr:
@@ -972,6 +1031,7 @@ func extractConnLegacy(repo, root string) error {
 			}
 		}
 	}
+	inlineClosers(connFns)
 	var b strings.Builder
 	b.WriteString("-- GENERATED by /verif/go/extract (connlegacy) from /repo/*.go — do not edit\n")
 	b.WriteString("import KafkaVerif.Model.ConnOps\nimport KafkaVerif.Model.TransportConnC17\nimport KafkaVerif.Model.ReaderStack\nnamespace KV.Gen.ConnLegacy\nopen KV.ConnOps\n\n")
@@ -1137,7 +1197,28 @@ func extractConnLegacy(repo, root string) error {
 	} else {
 		return fmt.Errorf("untranslated: writeCompressedMessages has no readArrayWith(&c.rbuf, …) call")
 	}
-	if t, after, err := translateApiVersions(connFns["ApiVersions"]); err != nil {
+	avFn := connFns["ApiVersions"]
+	if h := connFns["readApiVersions"]; h != nil {
+		avFn = h
+	}
+	avCloses := false
+	ast.Inspect(connFns["ApiVersions"].Body, func(n ast.Node) bool {
+		if is, ok := n.(*ast.IfStmt); ok {
+			notAs := false
+			ast.Inspect(is.Cond, func(m ast.Node) bool {
+				if u, ok := m.(*ast.UnaryExpr); ok && u.Op == token.NOT && containsCall(u.X, "As") {
+					notAs = true
+				}
+				return true
+			})
+			if notAs && containsText(is.Body, exprString(&ast.SelectorExpr{X: &ast.SelectorExpr{X: ast.NewIdent(recvIdent(connFns["ApiVersions"])), Sel: ast.NewIdent("conn")}, Sel: ast.NewIdent("Close")})) {
+				avCloses = true
+			}
+		}
+		return true
+	})
+	fmt.Fprintf(&b, "/-- conn.go ApiVersions closes the connection on errors that are not kafka errors -/\ndef apiVersionsClosesNonKafka : Bool := %v\n", avCloses)
+	if t, after, err := translateApiVersions(avFn); err != nil {
 		return fmt.Errorf("untranslated: %v", err)
 	} else {
 		fmt.Fprintf(&b, "-- conn.go ApiVersions (v0): the parse after waitResponse; error code checked after the parse: %v\n", after)
